@@ -63,6 +63,21 @@ Theorem C08_mixin_instance : forall fuel sch frags g snake cn tn ss extra s cs s
 Proof. exact mixin_instance_lemma. Qed.
 Print Assumptions C08_mixin_instance.
 
+(* the premise through applicable inline fragments: a selection set EVALUATED for rt is the class's own selection
+   set or the selection set of an unconditional `... on rt` whose condition applies (rt = the interface named by the
+   condition when the position's type implements it), nested to any depth; a named fragment on exactly rt spread
+   directly there is a base / inherited through a base of the class *)
+Theorem C08_mixin_instance_nested : forall fuel sch frags g snake cn tn ss extra s cs s',
+  acyclic_g g ->
+  ptd fuel sch frags g snake cn tn ss extra s = Some (cs, s') -> mem cn (st_public s) = false ->
+  exists c rest, cs = c :: rest /\ c_name c = cn /\ c_direct_at c = direct_at sch tn ss /\
+    forall fn rt fd, In (fn, rt) (c_direct_at c) -> find_frag fn frags = Some fd ->
+      is_union sch (fr_on fd) = false -> fr_on fd = rt -> existsb is_inline (fr_sel fd) = false ->
+      In fn (c_frags c) /\
+      exists b, In b (c_bfrags c) /\ In (pascal_s b) (c_bases c) /\ reachable (rgraph g) b fn.
+Proof. exact mixin_instance_nested_lemma. Qed.
+Print Assumptions C08_mixin_instance_nested.
+
 (* a selection set that reaches fragments only through conditional spreads / conditional inline fragments
    gets no fragment base class; below a conditional container nothing is a base (any depth) *)
 Theorem C08_conditional_not_base : forall sch frags fuel ss root unp fields mix unp',
@@ -337,3 +352,28 @@ Example C08_no_cycles_example :
                        {| fr_name := "B"; fr_on := "Dog"; fr_mixins := []; fr_sel := [SInline "Dog" false [SSpread "A" false]] |} ] = false.
 Proof. vm_compute. split; reflexivity. Qed.
 
+
+(* regression case of seeded change C08-9: `dog { ... on Animal { ...AF } }` - the inline fragment's selection set is
+   evaluated for the implemented interface Animal, so AF (on Animal) is a base of the Dog class; also one level
+   deeper along Dog -> Animal -> Named *)
+Definition sch_ic : aschema := {|
+  s_types := [("Query", KObj []); ("Named", KIface []); ("Animal", KIface ["Named"]);
+              ("Dog", KObj ["Animal"; "Named"]); ("String", KLeaf)];
+  s_fields := [("Query", [("dog", "Dog")]); ("Named", [("name", "String")]);
+               ("Animal", [("name", "String"); ("id", "String")]); ("Dog", [("name", "String"); ("id", "String")])] |}.
+Definition frags_ic : list fragdef :=
+  [ {| fr_name := "AF"; fr_on := "Animal"; fr_mixins := []; fr_sel := [SField None "id" [] []] |};
+    {| fr_name := "NF"; fr_on := "Named"; fr_mixins := []; fr_sel := [SField None "name" [] []] |} ].
+Definition ops_ic : list opdef :=
+  [ {| o_name := "V"; o_root := "Query"; o_mixins := [];
+       o_sel := [SField None "dog" [] [SField None "name" [] []; SInline "Animal" false [SSpread "AF" false]]] |};
+    {| o_name := "C"; o_root := "Query"; o_mixins := [];
+       o_sel := [SField None "dog" [] [SInline "Animal" false [SInline "Named" false [SSpread "NF" false]]]] |} ].
+Example C08_interface_condition_regression :
+  match generate_package 100 sch_ic frags_ic ops_ic true id_oracle with
+  | Some p => map (fun r => map (fun c => (c_name c, c_bases c, c_direct_at c)) (snd (fst r))) (pk_ops p) =
+                [[("V", ["BaseModel"], []); ("VDog", ["AF"], [("AF", "Animal")])];
+                 [("C", ["BaseModel"], []); ("CDog", ["NF"], [("NF", "Named")])]]
+  | None => False
+  end.
+Proof. vm_compute. reflexivity. Qed.
